@@ -19,10 +19,10 @@ ASSUMPTIONS = [
 
 
 @st.composite
-def image(draw, tier):
+def image(draw, tier, mega=False):
     hi = 24 if tier == "quick" else 40
-    shape = draw(gen.shape2(1, hi, big=0.04, big_pool=gen.BIG + [255, 256, 257, 300]))
-    kind = draw(st.sampled_from(["blob", "points", "noise", "const", "int_counts"]))
+    shape = draw(gen.mega_shape()) if mega else draw(gen.shape2(1, hi, big=0.04, big_pool=gen.BIG + [255, 256, 257, 300]))
+    kind = draw(st.sampled_from(["points", "noise", "int_counts"] if mega else ["blob", "points", "noise", "const", "int_counts"]))
     k = draw(st.integers(0, 2**31 - 1))
     rng = np.random.default_rng(k)
     m, n = shape
@@ -54,8 +54,8 @@ def _param_types(draw):
 
 
 @st.composite
-def blur_case(draw, tier):
-    img, kind = draw(image(tier))
+def blur_case(draw, tier, mega=False):
+    img, kind = draw(image(tier, mega))
     fn = draw(st.sampled_from(["pixel", "jitter", "smear"]))
     os_ = draw(st.integers(1, 5))
     cat = draw(st.sampled_from(["zero", "sub", "sub", "sub", "few", "few", "few", "few", "round", "round", "huge"]))
@@ -195,6 +195,14 @@ def blur(case, ctx):
         if np.max(np.abs(out2 - out)) > 1e-9 * peak:
             raise Violation(f"C19.{fn}.units", f"{fn} with the extent in physical units (pixel scale {case['pixelscale']}) "
                                                f"differs from the same extent in samples")
+
+
+@hyp("C19", "blur_mega", lambda tier: blur_case(tier, mega=True),
+     "the same relations on images of more than 2^20 samples (1030..3000 rows/columns, sizes of no special form)",
+     examples=(4, 16), budget_s=(200, 800))
+def blur_mega(case, ctx):
+    ctx.tag("mega")
+    blur(case, ctx)
 
 
 @st.composite
